@@ -235,6 +235,32 @@ def driver_curves(prop, tier, ev, rep, histories, steps):
     ev.extra["random_curve_histories"] = ev.extra.get("random_curve_histories", 0) + histories
 
 
+def driver_fn(prop, tier, ev, rep, count):
+    import random
+    from . import drivers
+    from .trace import Validator
+    lib = core.import_lib()
+    val = Validator()
+    drivers.fn_history(lib, random.Random(core.seed() * 31337 + 5), val, count)
+    n0 = len(val.events)
+    judge_events(ev, rep, val)
+    ev.extra["function_history_evaluations"] = ev.extra.get("function_history_evaluations", 0) + n0
+
+
+def driver_big(prop, tier, ev, rep, kind, count):
+    """seeded random LARGER instances (degree up to 6, more knots) executed on the library and judged by TLC"""
+    import random
+    from . import drivers
+    from .trace import Validator
+    lib = core.import_lib()
+    val = Validator()
+    rng = random.Random(core.seed() * 104729 + hash(kind) % 1000)
+    getattr(drivers, "big_" + kind)(lib, rng, val, count)
+    n0 = len(val.events)
+    judge_events(ev, rep, val)
+    ev.extra["random_larger_instances"] = ev.extra.get("random_larger_instances", 0) + n0
+
+
 def finish(ev, rep):
     code = rep.finish()
     ev.write()
@@ -292,19 +318,39 @@ def with_oracle(prop, cfgs):
             model_replay(prop, tier, ev, rep, module, c)
         if tier == "thorough" and prop == "C01":
             model_replay(prop, tier, ev, rep, "MC_Curve.tla", "MC_Curve_eval2_thorough.cfg")
+        if prop == "C01":
+            driver_big(prop, tier, ev, rep, "eval", 40 if tier == "quick" else 600)
         return finish(ev, rep)
     return f
 
 
 c01 = with_oracle("C01", [("MC_Curve.tla", "MC_Curve_eval_TIER.cfg")])
-c02 = simple("C02", [("MC_Curve.tla", "MC_Curve_basis_TIER.cfg")])
+def c02(tier):
+    ev = Evidence("C02", tier, core.seed())
+    rep = Reporter("C02", ev)
+    model_replay("C02", tier, ev, rep, "MC_Curve.tla", f"MC_Curve_basis_{tier}.cfg")
+    driver_big("C02", tier, ev, rep, "basis", 40 if tier == "quick" else 600)
+    driver_fn("C02", tier, ev, rep, 60 if tier == "quick" else 1500)
+    return finish(ev, rep)
 c04 = simple("C04", [("MC_Curve.tla", "MC_Curve_insert_TIER.cfg")],
              thorough_extra=[("MC_Curve.tla", "MC_Curve_insert2_thorough.cfg")])
 c05 = simple("C05", [("MC_Curve.tla", "MC_Curve_remove_TIER.cfg")])
 c06 = simple("C06", [("MC_Curve.tla", "MC_Curve_elevate_TIER.cfg"), ("MC_Curve.tla", "MC_Curve_decrease_TIER.cfg")])
 c07 = simple("C07", [("MC_Curve.tla", "MC_Curve_split_TIER.cfg"), ("MC_Curve.tla", "MC_Curve_join_TIER.cfg")])
-c08 = simple("C08", [("MC_Curve.tla", "MC_Curve_arith_TIER.cfg")])
-c13 = simple("C13", [("MC_Curve.tla", "MC_Curve_eq_TIER.cfg")])
+def c08(tier):
+    ev = Evidence("C08", tier, core.seed())
+    rep = Reporter("C08", ev)
+    model_replay("C08", tier, ev, rep, "MC_Curve.tla", f"MC_Curve_arith_{tier}.cfg")
+    driver_big("C08", tier, ev, rep, "arith", 25 if tier == "quick" else 300)
+    return finish(ev, rep)
+
+
+def c13(tier):
+    ev = Evidence("C13", tier, core.seed())
+    rep = Reporter("C13", ev)
+    model_replay("C13", tier, ev, rep, "MC_Curve.tla", f"MC_Curve_eq_{tier}.cfg")
+    driver_big("C13", tier, ev, rep, "arith", 25 if tier == "quick" else 300)
+    return finish(ev, rep)
 def c14(tier):
     ev = Evidence("C14", tier, core.seed())
     rep = Reporter("C14", ev)
@@ -384,6 +430,7 @@ def c10(tier):
             if bad:
                 rep.violation(f"Rule/{fam}:{'+'.join(bad)}", {"family": fam, "n": n, "nodes": xs, "weights": ws, "failed": bad})
     ev.extra["irrational_rules_checked_numerically"] = numeric
+    driver_big("C10", tier, ev, rep, "integ", 30 if tier == "quick" else 400)
     # (c) spline integrals, Integrate.function on monomials, polyline length
     for module, c in (("MC_Curve.tla", f"MC_Curve_integ_{tier}.cfg"), ("MC_Misc.tla", "MC_Misc_length_quick.cfg")):
         model_replay("C10", tier, ev, rep, module, c)
